@@ -175,6 +175,21 @@ carquet_schema_t* build_schema(
         return NULL;
     }
 
+    /* A node is either a group (children, no physical type) or a leaf (a
+     * physical type, no children).  Applications tell columns from groups by
+     * the presence of a type, the reader by the child count: refuse schemas in
+     * which the two disagree. */
+    for (int32_t i = 0; i < metadata->num_schema_elements; i++) {
+        const parquet_schema_element_t* elem = &metadata->schema[i];
+        bool is_group = elem->num_children != 0;
+        if (elem->num_children < 0 || (is_group && elem->has_type) ||
+            (i > 0 && !is_group && !elem->has_type)) {
+            CARQUET_SET_ERROR(error, CARQUET_ERROR_INVALID_SCHEMA,
+                "Schema element %d is neither a group nor a typed leaf", i);
+            return NULL;
+        }
+    }
+
     schema->elements = metadata->schema;
     schema->num_elements = metadata->num_schema_elements;
     schema->capacity = metadata->num_schema_elements;  /* Fixed size from file */
